@@ -174,6 +174,7 @@ fn main() {
         "cfgprod" => misc::cfgprod(&args),
         "meta" => misc::meta(&args),
         "purity" => misc::purity(&args),
+        "bigkinds" => misc::bigkinds(&args),
         "faildepth" => ac::faildepth(&args),
         "repr" => ac::repr(&args),
         "repr-nnfa" => repr::nnfa(&args),
